@@ -39,7 +39,11 @@ func approxEq(a, b reflect.Value, foldPx bool) bool {
 		return approxEq(a.Elem(), b.Elem(), foldPx)
 	case reflect.Struct:
 		if foldPx && a.Type() == dimensionType {
-			x, y := a.Interface().(pr.Dimension), b.Interface().(pr.Dimension)
+			// (no Interface(): the value may come from an unexported field)
+			dim := func(v reflect.Value) pr.Dimension {
+				return pr.Dimension{Value: pr.Float(v.FieldByName("Value").Float()), Unit: pr.Unit(v.FieldByName("Unit").Uint())}
+			}
+			x, y := dim(a), dim(b)
 			return foldUnit(x) == foldUnit(y) && approxEq(reflect.ValueOf(x.Value), reflect.ValueOf(y.Value), false)
 		}
 		for i := 0; i < a.NumField(); i++ {
@@ -146,6 +150,11 @@ func (c *check) runUnits(ctx *engine.Ctx, p *propInfo) {
 		nctx = 2
 	}
 	c.runKeywords(ctx, p, engines)
+	if strings.HasSuffix(p.name, "-width") && kwZeroWithoutStyle(p) {
+		// a border, outline or column-rule width computes to 0 without a style: the plain
+		// context alone would compare 0 with 0
+		nctx = 2
+	}
 	isFS := p.name == "font-size"
 	broken := map[string]bool{} // units whose evaluation crashed: not repeated at every position
 	for _, tmpl := range p.templates {
@@ -482,6 +491,15 @@ const (
 	kwFree
 )
 
+// kwZeroWithoutStyle: p is a width that computes to 0 when its style is none or hidden.
+func kwZeroWithoutStyle(p *propInfo) bool {
+	switch family(p.name) {
+	case "border-width", "outline", "column-rule":
+		return strings.HasSuffix(p.name, "-width")
+	}
+	return false
+}
+
 func borderStyleOf(name string, cx int) string {
 	// the border style the context declares next to the width (ctxDecls)
 	want := strings.TrimSuffix(name, "-width") + "-style:"
@@ -496,7 +514,7 @@ func borderStyleOf(name string, cx int) string {
 func kwExpect(p *propInfo, kv kwValue, cx int) (rule kwRule, px float64) {
 	switch family(p.name) {
 	case "border-width", "outline", "column-rule":
-		if strings.HasSuffix(p.name, "-width") {
+		if kwZeroWithoutStyle(p) {
 			// Backgrounds 3 §3.3, UI 4 §3.2, Multicol 1 §4.4: absolute length; 0 if the style is none or hidden
 			if st := borderStyleOf(p.name, cx); st == "none" || st == "hidden" {
 				return kwZero, 0
